@@ -21,11 +21,7 @@
 (*    conjunction of all clauses is accumulated in ok and checked as an    *)
 (*    invariant by TLC over all interleavings.                             *)
 (***************************************************************************)
-EXTENDS Naturals, Integers, Sequences, FiniteSets, TLC, DbusTypes
-
-CONSTANTS Enforced,   \* set of property ids whose clauses are enforced
-          Known,      \* set of known-finding names that may excuse a failed clause
-          Diag        \* TRUE: print the name of each failed enforced clause
+EXTENDS Naturals, Integers, Sequences, FiniteSets, TLC, DbusTypes, ClauseLib
 
 Ends == {"A", "P"}
 Peer(e) == IF e = "A" THEN "P" ELSE "A"
@@ -33,9 +29,7 @@ BIG == 2147483647
 INF == 1000000000
 NONE == -1
 
-VARIABLES tid, l,      \* trace cursor (0, 0 in model mode)
-          kfUsed,      \* known findings that excused a clause so far
-          scen,        \* scenario description (first event)
+VARIABLES scen,        \* scenario description (first event)
           wire,        \* [Ends -> Seq(msg)]  complete messages e has put on the wire
           segs,        \* [Ends -> Seq([id, flags, cum])] the SEGs among them, with cumulative length
           ws,          \* [Ends -> [term, cur, used, nAck, nTerm]] summary of wire[e]
@@ -109,10 +103,7 @@ OutOfPlace(e, m) ==
   \/ m.t \in {"ACK", "REFUSE"} /\ hInit[e] /\ m.id \notin (Ids(queued[e]) \ Ids(sfin[e]))
 
 ----------------------------------------------------------------------------
-(* clauses: sets of [tags, name, ok, kf]; kf names a known finding that excuses a failure *)
-C(tags, name, ok) == [tags |-> tags, name |-> name, ok |-> ok, kf |-> ""]
-CK(tags, name, ok, kf, kfcond) == [tags |-> tags, name |-> name, ok |-> ok, kf |-> IF kfcond THEN kf ELSE ""]
-
+(* clauses: sets of [tags, name, ok, kf], see ClauseLib *)
 WireClauses(ev) ==
   LET e == ev.e  m == ev.m  w == wire[e]  p == Peer(e)  s == ws[e]
       isSeg == m.t = "SEG"  start == isSeg /\ HasStart(m.flags)
@@ -265,14 +256,8 @@ Clauses(ev) ==
     [] ev.a = "Final"   -> FinalClauses(ev)
     [] OTHER -> {}
 
-Applies(c) == c.tags \cap Enforced # {}
-Holds(c) == c.ok \/ (c.kf # "" /\ c.kf \in Known)
-Report(c) == IF Diag THEN PrintT(<<"FAILCLAUSE", tid, l, c.name>>) ELSE TRUE
-\* written with IF so that TLC evaluates it as a predicate (a disjunction inside an action
-\* would be explored as two alternatives and the report printed for clauses that hold)
-ClauseOK(c) == IF ~Applies(c) THEN TRUE ELSE IF Holds(c) THEN TRUE ELSE (Report(c) /\ FALSE)
-StepOK(ev) == (\A c \in Clauses(ev) : ClauseOK(c)) = TRUE
-KfOf(ev) == {c.kf : c \in {d \in Clauses(ev) : Applies(d) /\ ~d.ok /\ d.kf # "" /\ d.kf \in Known}}
+StepOK(ev) == AllOK(Clauses(ev))
+KfOf(ev) == KfIn(Clauses(ev))
 
 ----------------------------------------------------------------------------
 (* state update per event (never depends on whether clauses held) *)
